@@ -25,7 +25,7 @@ EXPLANATION = (
     'subproject_name / (not forcefallback or not subproject_name) / subproject_name, each candidate identified by what it calls. '
     'R1b: _do_subproject configures iff forcefallback or not nofallback and returns the subproject dependency; _do_dependency/_do_existing_subproject '
     'return a dependency only when found / configured. R1c: _get_cached_dep: override wins, disk cache ignored iff forcefallback and subproject_name, '
-    'version mismatch -> None (disk) / not-found (override). R1d: forcefallback = OR of exactly {force_fallback argument, wrap_mode==forcefallback, '
+    'version mismatch -> None (disk) / not-found (override). R1d: on every path of the prologue of lookup() the last constant written to forcefallback (flag assignments are first rewritten to if/else of constant writes: or-chain, if/elif ladder and |= read alike) equals the OR of exactly {force_fallback argument, wrap_mode==forcefallback, '
     'any name in force_fallback_for, subproject in force_fallback_for} (+ provider in force_fallback_for), nofallback = wrap_mode==nofallback. '
     'R1e: implicit [provide] fallback adopted iff no explicit fallback, allow_fallback is not False, a provider exists and (forced or allow_fallback is True '
     'or required or already configured). R1f: candidate loop: found -> implicit override for every name not yet overridden, return; required and '
@@ -35,9 +35,12 @@ EXPLANATION = (
     'R2b: check_hash raises unless sha256(file) == <what>_hash. R2c: in _download os.rename(tmp, ofname) is reached only after digest == expected, with '
     'digest/tmp from one get_data call; mismatch removes tmp and raises; get_data hashes every block it writes. R2d: every unpack_archive in wrap.py takes '
     'its archive from _get_file_internal. R3: every network primitive reachable from Resolver.resolve() is reachable only after check_can_download() completed. '
+    'R5: a keyword argument that Interpreter.func_dependency reads again after lookup() returned (include_type, not_found_message) or that is rewritten in the dict the '
+    'identifier is computed from (required) is on no path of get_dep_identifier put into the identifier. '
     'R4: apply_patch/apply_diff_files run only in _resolve inside a try whose handlers remove self.dirname and re-raise; every return of _resolve is '
     'gated by has_buildfile(). NOT decided: outcomes of run-time lookups (system state, subproject configuration), the cross product of the policy table as behaviour, '
-    'that sha256/urlopen behave as documented, KeyboardInterrupt during patching, a failure of the acquisition step itself (a failing shutil.unpack_archive in _get_file / clone in _get_git leaves a partly populated directory that a later run accepts when the build file was already unpacked: outside the clause "a failed patch/diff step", printed as an information note by R4, witness in the note), '
+    'that sha256/urlopen behave as documented, KeyboardInterrupt during patching, that an override is found by a dependency() call that names another method/modules/components (these keywords are part of the identifier by upstream design; confirmed by probe, not armed), a guard of _get_cached_dep spelled with another attribute than the reference knows (ends Undecided), override_dependency() in interpreter/mesonmain.py, '
+    'a failure of the acquisition step itself (a failing shutil.unpack_archive in _get_file / clone in _get_git leaves a partly populated directory that a later run accepts when the build file was already unpacked: outside the clause "a failed patch/diff step", printed as an information note by R4, witness in the note), '
     '`meson subprojects update/packagefiles` (msubprojects.py re-applies patches outside the cleanup).')
 ASSUMPTIONS = ['Dependency objects are truthy; NotFoundDependency.found() is False',
                'hashlib.sha256 / os.rename / shutil.unpack_archive behave as documented',
@@ -66,6 +69,22 @@ VOCAB = {
 _INLINED: T.Dict[T.Any, T.Tuple[T.Any, T.Any]] = {}
 
 
+def _constants(mod: Module, cls: str) -> T.Dict[str, ast.AST]:
+    """module-level and class-level names bound exactly once to a string/number literal"""
+    out: T.Dict[str, ast.AST] = {}
+    seen: T.Dict[str, int] = {}
+    for scope, prefix in ((mod.tree, ('',)), (mod.cls(cls), ('self.', cls + '.', 'cls.'))):
+        for st in scope.body:  # type: ignore[attr-defined]
+            tgts = st.targets if isinstance(st, ast.Assign) else [st.target] if isinstance(st, ast.AnnAssign) and st.value is not None else []
+            for t in tgts:
+                if isinstance(t, ast.Name):
+                    for pre in prefix:
+                        seen[pre + t.id] = seen.get(pre + t.id, 0) + 1
+                        if isinstance(st.value, ast.Constant) and isinstance(st.value.value, (str, int)) and not isinstance(st.value.value, bool):  # type: ignore[union-attr]
+                            out[pre + t.id] = st.value  # type: ignore[union-attr,assignment]
+    return {k: v for k, v in out.items() if seen.get(k) == 1}
+
+
 def _fn(mod: Module, qn: str) -> T.Any:
     """the function `Cls.name`, with calls of extracted helpers of Cls expanded"""
     fn = mod.func(qn)
@@ -78,7 +97,7 @@ def _fn(mod: Module, qn: str) -> T.Any:
             _INLINED.clear()
         meths = mod.methods(cls)
         new = S.inline_helpers(fn, meths, VOCAB[cls])          # (always a private copy)
-        _INLINED[key] = (mod, S.canonicalise(new, meths, cls))
+        _INLINED[key] = (mod, S.canonicalise(new, meths, cls, _constants(mod, cls)))
     return _INLINED[key][1]
 
 
@@ -150,12 +169,14 @@ def r1a(ctx: RuleCtx) -> None:
             a = 'each(self.names)'
         return (kind, {'each(self.names)': 'each name', 'self.subproject_name': 'subproject'}.get(a, a))
 
-    def items(e: ast.AST) -> T.List[T.Tuple[str, str]]:
-        """the candidates a list-valued expression contributes, in order (display, comprehension over self.names, +, list())"""
+    def items(e: ast.AST, lst: str, cur: T.List[T.Any]) -> T.List[T.Any]:
+        """the candidates a list-valued expression denotes, in order; the name `lst` inside it stands for what the list holds so far"""
+        if isinstance(e, ast.Name) and e.id == lst:
+            return list(cur)
         if isinstance(e, (ast.List, ast.Tuple)):
-            out: T.List[T.Tuple[str, str]] = []
+            out: T.List[T.Any] = []
             for x in e.elts:
-                out.extend(items(x.value) if isinstance(x, ast.Starred) else [one(x, None)])
+                out.extend(items(x.value, lst, cur) if isinstance(x, ast.Starred) else [one(x, None)])
             return out
         if isinstance(e, (ast.ListComp, ast.GeneratorExp)) and len(e.generators) == 1 and not e.generators[0].ifs \
                 and isinstance(e.generators[0].target, ast.Name):
@@ -163,9 +184,9 @@ def r1a(ctx: RuleCtx) -> None:
             k, a = one(e.elt, e.generators[0].target.id)
             return [(k, a if it == 'self.names' or a != 'each name' else f'each({it})')]
         if isinstance(e, ast.BinOp) and isinstance(e.op, ast.Add):
-            return items(e.left) + items(e.right)
-        if isinstance(e, ast.Call) and call_name(e) == 'list' and len(e.args) == 1:
-            return items(e.args[0])
+            return items(e.left, lst, cur) + items(e.right, lst, cur)
+        if isinstance(e, ast.Call) and call_name(e) in ('list', 'tuple') and len(e.args) == 1 and not e.keywords:
+            return items(e.args[0], lst, cur)
         raise Undecided(f'_get_candidates: cannot read the candidates of {short(e)}')
 
     def got(r: SymRow) -> T.Any:
@@ -174,14 +195,35 @@ def r1a(ctx: RuleCtx) -> None:
         if r.path.outcome != 'return' or not isinstance(r.path.value, ast.Name):
             raise Undecided(f'_get_candidates: result is not a named list: {r.outcome}')
         lst = r.path.value.id
-        seq: T.List[T.Any] = items(r.sp.value())      # what the list was bound to (display / comprehension / `+=` chain)
-        grown = isinstance(r.sp.value(), ast.BinOp)
-        for orig, symc, _ in r.calls():
-            if isinstance(orig.func, ast.Attribute) and isinstance(orig.func.value, ast.Name) and orig.func.value.id == lst:
-                if grown or orig.func.attr not in ('append', 'extend') or len(symc.args) != 1:
-                    raise Undecided(f'_get_candidates: list changed by {short(orig)}')
-                seq.extend([one(symc.args[0], None)] if orig.func.attr == 'append' else items(symc.args[0]))
-        if r.sp.left_early():
+        sp = r.sp
+
+        def sym_keep(e: ast.AST, i: int) -> ast.AST:      # everything named by its definition on this path, except the list itself
+            return S._subst(e, {k: v for k, v in sp.envs[i].items() if k != lst}, sp.params, frozenset())
+        seq: T.Optional[T.List[T.Any]] = None
+        for i, ev in enumerate(sp.path.events):
+            st = ev.node
+            if ev.kind != 'stmt' or st is None:
+                if ev.kind == 'cond' and lst in {n.id for n in ast.walk(st) if isinstance(n, ast.Name)}:
+                    raise Undecided(f'_get_candidates: the list is tested in {short(st)}')
+                continue
+            uses = [n for n in ast.walk(st) if isinstance(n, ast.Name) and n.id == lst]
+            if not uses or isinstance(st, ast.Return):
+                continue
+            if isinstance(st, (ast.Assign, ast.AnnAssign)) and st.value is not None and \
+                    [attr_chain(t) for t in (st.targets if isinstance(st, ast.Assign) else [st.target])] == [lst]:
+                seq = items(sym_keep(st.value, i), lst, seq or [])
+            elif isinstance(st, ast.AugAssign) and attr_chain(st.target) == lst and isinstance(st.op, ast.Add):
+                seq = (seq or []) + items(sym_keep(st.value, i), lst, seq or [])
+            elif isinstance(st, ast.Expr) and isinstance(st.value, ast.Call) and isinstance(st.value.func, ast.Attribute) \
+                    and attr_chain(st.value.func.value) == lst and st.value.func.attr in ('append', 'extend') and len(st.value.args) == 1 \
+                    and not st.value.keywords and seq is not None and len(uses) == 1:
+                arg = sym_keep(st.value.args[0], i)
+                seq = seq + ([one(arg, None)] if st.value.func.attr == 'append' else items(arg, lst, seq))
+            else:
+                raise Undecided(f'_get_candidates: the list is used by {short(st)}, which is not a way of adding candidates this rule reads')
+        if seq is None:
+            raise Undecided('_get_candidates: the returned list is never bound on this path')
+        if sp.left_early():
             seq.append(('a loop over the names is left before all names were added',))
         return tuple(seq)
 
@@ -404,62 +446,118 @@ def _candidate_loop(fn: ast.AST) -> ast.For:
     return loops[0]
 
 
+_SRC_MEMO: T.Dict[Atom, T.Optional[str]] = {}
+
+
+def _source_label(a: Atom) -> T.Optional[str]:
+    if a not in _SRC_MEMO:
+        if len(_SRC_MEMO) > 5000:
+            _SRC_MEMO.clear()
+        _SRC_MEMO[a] = _source_label_(a)
+    return _SRC_MEMO[a]
+
+
+def _source_label_(a: Atom) -> T.Optional[str]:
+    """which documented source of `forcefallback` / `nofallback` an atom of lookup()'s prologue is"""
+    if a == _truth('ARG2'):
+        return 'force_fallback argument'
+    modes = {'WrapMode.forcefallback': 'wrap_mode=forcefallback', 'WrapMode.nofallback': 'wrap_mode=nofallback'}
+    if a.kind == 'cmp' and a.args[0] == 'eq' and WM in a.args[1:]:
+        other = [x for x in a.args[1:] if x != WM]
+        return modes.get(other[0] if other else '')
+    if a.kind == 'is' and a.args[0] == WM:
+        return modes.get(a.args[1])
+    if a.kind == 'in' and a.args[1] == FFOR:
+        return {'each(self.names)': 'a name in force_fallback_for', 'self.subproject_name': 'subproject in force_fallback_for',
+                PROVIDER + '[0]': 'provider in force_fallback_for'}.get(a.args[0])
+    if a.kind == 'truth':
+        try:
+            e = _Alpha().visit(copy.deepcopy(_parse(a.args[0])))
+        except SyntaxError:
+            return None
+        if norm(e) in (f'any((_x in {FFOR} for _x in self.names))', f'any([_x in {FFOR} for _x in self.names])'):
+            return 'a name in force_fallback_for'
+    return None
+
+
+def _flag_prologue(fn: T.Any, loop: ast.For) -> T.List[ast.stmt]:
+    """the statements of lookup() before the candidate loop that can have a say in the flags or in the adoption of an implicit
+    fallback: simple statements, and compound ones that write self.forcefallback / self.nofallback or call a method of the class
+    (display-name decoration, type assertions and argument errors are left out - they only multiply paths)"""
+    out: T.List[ast.stmt] = []
+    needed: T.Set[str] = set()
+    for st in reversed(fn.body[:fn.body.index(loop)]):
+        if isinstance(st, ast.Assert):
+            continue
+        if isinstance(st, (ast.If, ast.For, ast.While, ast.With, ast.Try)):
+            writes = any(isinstance(n, (ast.Assign, ast.AugAssign, ast.AnnAssign)) and
+                         any(attr_chain(t) in ('self.forcefallback', 'self.nofallback') for t in (n.targets if isinstance(n, ast.Assign) else [n.target]))
+                         for n in ast.walk(st))
+            calls = any(isinstance(n, ast.Call) and S.self_method_called(n) for n in ast.walk(st))
+            feeds = any(isinstance(n, ast.Name) and isinstance(n.ctx, ast.Store) and n.id in needed for n in ast.walk(st))
+            if not writes and not calls and not feeds:
+                continue
+        needed |= {n.id for n in ast.walk(st) if isinstance(n, ast.Name) and isinstance(n.ctx, ast.Load)}
+        out.append(st)
+    return out[::-1]
+
+
+def _loop_region(fn: T.Any, loop: ast.For) -> T.List[ast.stmt]:
+    """the candidate loop and what follows it, preceded by the single-definition top-level locals of the prologue it reads"""
+    counts: T.Dict[str, int] = {}
+    for n in ast.walk(fn):
+        if isinstance(n, ast.Name) and isinstance(n.ctx, ast.Store):
+            counts[n.id] = counts.get(n.id, 0) + 1
+    i = fn.body.index(loop)
+    pre = [st for st in fn.body[:i] if isinstance(st, (ast.Assign, ast.AnnAssign)) and st.value is not None
+           and all(isinstance(t, ast.Name) and counts.get(t.id) == 1 for t in (st.targets if isinstance(st, ast.Assign) else [st.target]))]
+    return pre + fn.body[i:]
+
+
+GATING = {_truth('self.subproject_name'): 'explicit fallback', Atom('is', ('self.allow_fallback', 'False')): 'allow=false',
+          _truth(PROVIDER + '[0]'): 'provider'}
+
+
 def r1d(ctx: RuleCtx) -> None:
     mod = ctx.repo.module(DF)
     qn = f'{H}.lookup'
     fn = _fn(mod, qn)
     loop = _candidate_loop(fn)
-    pre = fn.body[:fn.body.index(loop)]
-    # reference (dependency.yaml / Subprojects.md: --wrap-mode=forcefallback, --force-fallback-for=<dep or subproject>; the
-    # force_fallback argument is the `fallback` of a disabled-feature-free subproject lookup in the interpreter)
-    want_force = _atom_set(_parse(f'ARG2 or {WM} == WrapMode.forcefallback or any(n in {FFOR} for n in self.names) or self.subproject_name in {FFOR}'), ast.Or)
-    want_aug = _atom_set(_parse(f'{PROVIDER}[0] in {FFOR}'), ast.Or)
-    want_nofb = _atom_set(_parse(f'{WM} == WrapMode.nofallback'), ast.Or)
-    seen_f: T.Set[str] = set()
-    seen_n: T.Set[str] = set()
-    n_paths = 0
-    for sp in sympaths(fn, pre):
-        n_paths += 1
-        f_writes: T.List[T.Tuple[str, T.Set[str], ast.stmt]] = []
-        n_writes: T.List[T.Tuple[T.Set[str], ast.stmt]] = []
-        for st, i in sp.stmts():
-            tgt = None
-            if isinstance(st, ast.Assign) and len(st.targets) == 1:
-                tgt = attr_chain(st.targets[0])
-            elif isinstance(st, (ast.AugAssign, ast.AnnAssign)):
-                tgt = attr_chain(st.target)
-            if tgt == 'self.forcefallback':
-                if isinstance(st, ast.AugAssign):
-                    if not isinstance(st.op, ast.BitOr):
-                        raise Undecided(f'lookup: forcefallback updated by {short(st)}')
-                    f_writes.append(('or', _atom_set(sp.sym(st.value, i), ast.Or), st))
-                else:
-                    f_writes.append(('set', _atom_set(sp.sym(st.value, i), ast.Or), st))  # type: ignore[union-attr,arg-type]
-            elif tgt == 'self.nofallback':
-                if isinstance(st, ast.AugAssign):
-                    raise Undecided(f'lookup: nofallback updated by {short(st)}')
-                n_writes.append((_atom_set(sp.sym(st.value, i), ast.Or), st))  # type: ignore[union-attr,arg-type]
-        if not f_writes or f_writes[0][0] != 'set' or any(k == 'set' for k, _, _ in f_writes[1:]):
-            raise Undecided('lookup: forcefallback is not assigned once and then only widened with |=')
-        if len(n_writes) != 1:
-            raise Undecided('lookup: nofallback is not assigned exactly once')
-        key = repr(sorted(f_writes[0][1]))
-        if key not in seen_f:
-            seen_f.add(key)
-            ctx.require(f_writes[0][1] == want_force, f'forcefallback = OR of {sorted(f_writes[0][1])}', mod, qn, f_writes[0][2],
-                        f'forcefallback is computed from {sorted(f_writes[0][1])}; the documented sources are {sorted(want_force)}')
-        for k, s, st in f_writes[1:]:
-            key = repr(sorted(s))
-            if key not in seen_f:
-                seen_f.add(key)
-                ctx.require(s == want_aug, f'forcefallback widened by {sorted(s)}', mod, qn, st,
-                            f'forcefallback is widened by {sorted(s)}; only the providing subproject being in force_fallback_for may do that: {sorted(want_aug)}')
-        key = repr(sorted(n_writes[0][0]))
-        if key not in seen_n:
-            seen_n.add(key)
-            ctx.require(n_writes[0][0] == want_nofb, f'nofallback = {sorted(n_writes[0][0])}', mod, qn, n_writes[0][1],
-                        f'nofallback is computed as {sorted(n_writes[0][0])}; documented: {sorted(want_nofb)}')
-    ctx.floor('paths through the prologue of lookup', n_paths, 8)
+    pre = _flag_prologue(fn, loop)
+    tab = symtable(fn, qn + ':flags', pre, drop=lambda a: _source_label(a) is None and a not in GATING)
+    sem = dict(GATING)
+    for a in tab.atoms():
+        lab = _source_label(a)
+        if lab:
+            sem[a] = lab
+    SRC = ('force_fallback argument', 'wrap_mode=forcefallback', 'a name in force_fallback_for', 'subproject in force_fallback_for')
+
+    def last_write(r: SymRow, attr: str) -> T.Any:
+        val: T.Any = 'never written'
+        for st, i in r.sp.stmts():
+            tgts = st.targets if isinstance(st, ast.Assign) else [st.target] if isinstance(st, (ast.AugAssign, ast.AnnAssign)) else []
+            if any(attr_chain(t) == attr for t in tgts):
+                v = st.value if isinstance(st, (ast.Assign, ast.AnnAssign)) else None
+                if not (isinstance(v, ast.Constant) and isinstance(v.value, bool)):
+                    raise Undecided(f'{qn}: {attr} is written by {short(st)}, which is not a flag computed from conditions')
+                val = v.value
+        if val == 'never written':
+            raise Undecided(f'{qn}: a path through the prologue never writes {attr}')
+        return val
+
+    def got_force(r: SymRow) -> T.Any:
+        return None if r.skipped() else last_write(r, 'self.forcefallback')
+
+    def ref_force(v: T.Dict[str, bool]) -> T.Any:
+        forced = any(v[k] for k in SRC)
+        if not v['explicit fallback'] and not v['allow=false'] and v['provider']:
+            forced = forced or v['provider in force_fallback_for']      # the wrap that provides the dependency is named in force_fallback_for
+        return forced
+    decide(ctx, mod, qn, fn, tab, sem, ref_force, got_force, 'forcefallback = OR of the documented sources',
+           SRC + ('provider in force_fallback_for', 'explicit fallback', 'allow=false', 'provider'))
+    decide(ctx, mod, qn, fn, tab, sem, lambda v: v['wrap_mode=nofallback'], lambda r: None if r.skipped() else last_write(r, 'self.nofallback'),
+           'nofallback = (wrap_mode == nofallback)', ('wrap_mode=nofallback',))
+    ctx.floor('paths through the prologue of lookup', len(tab.rows), 1)
 
 
 def r1e(ctx: RuleCtx) -> None:
@@ -467,8 +565,8 @@ def r1e(ctx: RuleCtx) -> None:
     qn = f'{H}.lookup'
     fn = _fn(mod, qn)
     loop = _candidate_loop(fn)
-    pre = fn.body[:fn.body.index(loop)]
-    tab = symtable(fn, qn + ':implicit fallback', pre)
+    pre = _flag_prologue(fn, loop)
+    tab = symtable(fn, qn + ':implicit fallback', pre, drop=lambda a: _source_label(a) is not None)
     sem = {_truth('self.subproject_name'): 'explicit fallback', Atom('is', ('self.allow_fallback', 'False')): 'allow=false',
            Atom('is', ('self.allow_fallback', 'True')): 'allow=true', _truth(PROVIDER + '[0]'): 'provider',
            _truth('self.forcefallback'): 'forced', _truth("ARG1.get('required', True)"): 'required',
@@ -487,7 +585,7 @@ def r1e(ctx: RuleCtx) -> None:
             return 'not adopted'
         if len(adopt) == 1 and [norm(a) for a in adopt[0].args] == [PROVIDER + '[0]', PROVIDER + '[1]']:
             # the widening of forcefallback must precede the decision
-            widened = [i for st, i in r.sp.stmts() if isinstance(st, ast.AugAssign) and attr_chain(st.target) == 'self.forcefallback']
+            widened = [i for a, v, i in r.sp.conds() if _source_label(a) == 'provider in force_fallback_for']
             tested = [i for a, v, i in r.sp.conds() if a == _truth('self.forcefallback')]
             if tested and (not widened or min(widened) > min(tested)):
                 return 'adopted, but forcefallback tested before the provider was checked against force_fallback_for'
@@ -511,7 +609,7 @@ def r1f(ctx: RuleCtx) -> None:
     qn = f'{H}.lookup'
     fn = _fn(mod, qn)
     loop = _candidate_loop(fn)
-    tab = symtable(fn, qn + ':candidate loop', since=lambda sp: sp.first_iter(loop))
+    tab = symtable(fn, qn + ':candidate loop', _loop_region(fn, loop), since=lambda sp: sp.first_iter(loop))
     cand = 'each(enumerate(self._get_candidates()))'
     OVR = 'self.build.dependency_overrides[self.for_machine]'
     IDENT = 'dependencies.get_dep_identifier(each(self.names), ARG1)'
@@ -537,9 +635,16 @@ def r1f(ctx: RuleCtx) -> None:
         raise Undecided(f'{qn}: candidate invoked in {len(calls)} different ways')
     call = _parse(next(iter(calls)))
     assert isinstance(call, ast.Call)
-    ctx.require(len(call.args) == 3 and norm(call.args[0]) == 'ARG1' and norm(call.args[1]) == f'{cand}[1][1]',
-                'each candidate is called with (kwargs, its own name, subproject kwargs)', mod, qn, 'candidate call',
-                f'candidate call is {short(call)}')
+    if not (len(call.args) == 3 and not call.keywords):
+        raise Undecided(f'{qn}: candidate call {short(call)} is not (kwargs, name, subproject kwargs)')
+    if norm(call.args[0]) != 'ARG1' and not (isinstance(call.args[0], ast.Name) and False):
+        raise Undecided(f'{qn}: candidates are not called with the kwargs of lookup(): {short(call.args[0])}')
+    other = _parse(norm(call.args[1]))
+    own = norm(call.args[1]) == f'{cand}[1][1]'
+    if not own and not (isinstance(other, ast.Subscript) and norm(other).startswith(cand)):
+        raise Undecided(f'{qn}: second argument of the candidate call not understood: {short(call.args[1])}')
+    ctx.require(own, 'each candidate is called with (kwargs, its own name, subproject kwargs)', mod, qn, 'candidate call',
+                f'candidate call is {short(call)}: the function of one candidate is called with {short(call.args[1])}, not with its own name')
     # only the last candidate is required
     req_sets: T.Set[str] = set()
     for r in tab.rows:
@@ -549,6 +654,10 @@ def r1f(ctx: RuleCtx) -> None:
     want_req = repr(sorted({repr(_truth("ARG1.get('required', True)")), repr(LAST)}))
     if not req_sets:
         raise Undecided(f"{qn}: no assignment to kwargs['required'] recognised in the candidate loop")
+    known = {repr(_truth("ARG1.get('required', True)")), repr(LAST), 'not ' + repr(LAST), 'not ' + repr(_truth("ARG1.get('required', True)"))}
+    for rs in req_sets:
+        if not set(eval(rs)) <= known:      # (rs is the repr of a sorted list of atom texts built above)
+            raise Undecided(f"{qn}: kwargs['required'] is computed from {rs}, which is outside (required, is-last)")
     ctx.require(req_sets == {want_req}, "kwargs['required'] = required and this is the last candidate", mod, qn, "kwargs['required']",
                 f"kwargs['required'] is set to {sorted(req_sets)}; reference {want_req}")
 
@@ -724,13 +833,18 @@ def r2a(ctx: RuleCtx) -> None:
         if key in seen:
             continue
         seen.add(key)
+        if not ok:
+            taking = [short(o, 60) for o, sc, _ in sp.calls() if S.self_method_called(o) not in ('check_hash', '_download') and
+                      (call_name(o) or '').split('.')[0] not in ('os', 'mlog', 'Path') and any(norm(x) == vt for x in list(sc.args) + [k.value for k in sc.keywords])]
+            if taking:
+                raise Undecided(f'{qn}: no verification recognised on `{short(sp.path.describe(), 160)}`, but {taking} receive the returned path')
         if not ok and _opaque(sp, R):
             raise Undecided(f'{qn}: no verification seen on `{short(sp.path.describe(), 160)}`, but {_opaque(sp, R)} could not be looked into')
         branch = {True: 'URL branch', False: 'packagefiles branch', None: 'no <what>_url test on the path'}[url]
         ctx.require(ok, f'{branch}: returned {short(vt, 60)} verified by {how}', mod, qn, sp.path.events[-1].node,
                     f'{branch}: the path `{short(sp.path.describe(), 200)}` returns {short(vt, 80)} without '
                     + ('a hash check that requires the hash' if weak else f'check_hash(what, <that path>) / _download(what, <that path>)'))
-    ctx.floor('returning paths of _get_file_internal', n, 3)
+    ctx.floor('returning paths of _get_file_internal', n, 1)
 
 
 def r2b(ctx: RuleCtx) -> None:
@@ -753,6 +867,11 @@ def r2b(ctx: RuleCtx) -> None:
             why = 'sha256(file at path) == recorded hash'
         elif conds.get(recorded) is False and conds.get(_truth('ARG3')) is False:
             why = 'no hash recorded and none required'
+        if why is None:
+            odd = [repr(a) for a in conds if ('hash_file(' in repr(a) or '_hash' in repr(a)) and a != recorded and not
+                   (a.kind == 'cmp' and a.args[0] == 'eq' and any(x.startswith('self.hash_file(') for x in a.args[1:]) and any(x in a.args[1:] for x in EXPS))]
+            if odd:
+                raise Undecided(f'{qn}: accepting path `{short(sp.path.describe(), 160)}` tests {odd}, which is not a comparison this rule reads')
         if why is None and _opaque(sp, R):
             raise Undecided(f'{qn}: accepting path `{short(sp.path.describe(), 160)}` goes through {_opaque(sp, R)}, which could not be looked into')
         key = f'{why}|{"" if why else sp.path.describe()}'
@@ -762,7 +881,7 @@ def r2b(ctx: RuleCtx) -> None:
         ctx.require(why is not None, f'check_hash accepts because {why}', mod, qn, f'accepting path: {short(sp.path.describe(), 200)}',
                     f'check_hash returns normally on the path `{short(sp.path.describe(), 220)}` although neither `{DIG} == {EXPS[0]}` was established '
                     'nor (hash not recorded and not required)', sp.path.events[-1].node if sp.path.events else fn)
-    ctx.floor('accepting paths of check_hash', n_acc, 2)
+    ctx.floor('accepting paths of check_hash', n_acc, 1)
     ctx.require(n_rej >= 1, 'check_hash has a rejecting path', mod, qn, fn, 'check_hash never raises')
     # PackageDefinition.get: missing key raises
     g = mod.func('PackageDefinition.get')
@@ -842,7 +961,7 @@ def _paired_writes(ctx: RuleCtx, mod: Module, fn: ast.AST, qn: str) -> T.Tuple[T
                         shas.add(c2.func.value.id)
             ctx.require(partner is not None, f'{short(c)} is hashed by the sha256 update next to it', mod, qn, c,
                         f'{short(c)} writes a block into the download that no adjacent <sha256>.update({blk}) covers')
-    ctx.floor('streamed writes in get_data', n_w, 2)
+    ctx.floor('streamed writes in get_data', n_w, 1)
     return files, shas
 
 
@@ -937,7 +1056,7 @@ def r2c(ctx: RuleCtx) -> None:
                     and isinstance(p, ast.Attribute) and p.attr == 'name' and isinstance(p.value, ast.Name) and p.value.id in files
         ctx.require(ok, f'get_data returns (digest of the written stream, its file): {short(v)}', mod, f'{R}.get_data', rt,
                     f'`{short(rt)}`: the digest is not the sha256 that covered the writes into the returned file')
-    ctx.floor('returns of get_data', n_ret, 3)
+    ctx.floor('returns of get_data', n_ret, 1)
 
 
 def r2d(ctx: RuleCtx) -> None:
@@ -955,7 +1074,7 @@ def r2d(ctx: RuleCtx) -> None:
                 o = o - {'call:str', 'call:os.fspath', 'call:os.path.abspath', 'call:os.path.normpath'}
                 ctx.require(o == {'san:_get_file_internal'}, f'{q}: {short(c)} unpacks a path from _get_file_internal', mod, q, c,
                             f'{short(c)} unpacks an archive whose path comes from {sorted(o)}, not (only) from the verifying _get_file_internal')
-    ctx.floor('unpack_archive call sites in wrap.py', n, 3)
+    ctx.floor('unpack_archive call sites in wrap.py', n, 1)
     if ctx.thorough:
         others = []
         for rel in ctx.repo.py_files('mesonbuild'):
@@ -1017,6 +1136,10 @@ def _primitive(c: ast.Call, fn: ast.AST) -> T.Optional[str]:
     return None
 
 
+def _nodownload_atoms() -> T.Tuple[Atom, ...]:
+    return (Atom('is', ('self.wrap_mode', 'WrapMode.nodownload')), tables.canon(_parse('self.wrap_mode == WrapMode.nodownload'), True)[0])
+
+
 class _Net:
     def __init__(self, mod: Module):
         self.mod = mod
@@ -1025,6 +1148,7 @@ class _Net:
         self.memo: T.Dict[T.Tuple[str, bool], T.Dict[T.Tuple[str, str], T.List[str]]] = {}
         self.guard_sites: T.Set[str] = set()
         self._guarding: T.Dict[str, bool] = {}
+        self.inline_guards = 0
         self._in_progress: T.Set[str] = set()
 
     def fn_of(self, key: str) -> T.Optional[ast.AST]:
@@ -1051,9 +1175,18 @@ class _Net:
             self._in_progress.discard(m)
         return self._guarding[m]
 
-    def _is_guard(self, n: Node) -> bool:
+    def _is_guard(self, n: Node) -> T.Any:
+        """True: the statement calls the guard (or a helper that always passes it); 'T'/'F': a test of wrap_mode against nodownload
+        written inline - the edge with that label is the one on which downloading is known to be allowed"""
         e = n.expr()
-        return e is not None and any(isinstance(c, ast.Call) and self.guarding(S.self_method_called(c) or '') for c in walk_no_nested(e))
+        if e is None:
+            return False
+        if n.kind == 'test':
+            a, pol = tables.canon(e, True)
+            if a in _nodownload_atoms():
+                self.inline_guards += 1
+                return 'F' if pol else 'T'
+        return any(isinstance(c, ast.Call) and self.guarding(S.self_method_called(c) or '') for c in walk_no_nested(e))
 
     def dispatch_targets(self, c: ast.Call, fn: ast.AST) -> T.Optional[T.List[ast.AST]]:
         """`T[k](..)`, `T.get(k)(..)`, or `f = T[k] / T.get(k[, d])` ... `f(..)` with T a dict display (local, class-level or module-level
@@ -1061,9 +1194,24 @@ class _Net:
         f: ast.AST = c.func
         if isinstance(f, ast.Name):
             defs = _assigned(fn, f.id)
-            if len(defs) != 1 or defs[0] is None:
+            if not defs or any(d is None for d in defs):
                 return None
+            if len(defs) > 1 or isinstance(defs[0], ast.IfExp) or attr_chain(defs[0]) is not None or isinstance(defs[0], ast.Lambda):
+                # a callable selected first, called later: `f = self.a if c else self.b` / `f = self.a ... f = self.b` -> any of them
+                outs: T.List[ast.AST] = []
+                todo = list(defs)
+                while todo:
+                    d = todo.pop()
+                    if isinstance(d, ast.IfExp):
+                        todo += [d.body, d.orelse]
+                    elif attr_chain(d) is not None or isinstance(d, ast.Lambda):
+                        outs.append(d)
+                    else:
+                        return None
+                return outs
             f = defs[0]
+        if isinstance(f, ast.IfExp):
+            return [f.body, f.orelse] if all(attr_chain(x) is not None or isinstance(x, ast.Lambda) for x in (f.body, f.orelse)) else None
         extra: T.List[ast.AST] = []
         if isinstance(f, ast.Subscript):
             tab: ast.AST = f.value
@@ -1175,13 +1323,17 @@ def r3(ctx: RuleCtx) -> None:
                         f'{R}.{site[0][5:]}' if site[0].startswith('self.') else site[0], site[1],
                         f'{site[1]} is reachable from {R}.{ent[5:]}() without check_can_download() having completed: '
                         f'{" -> ".join(x.replace("self.", "") for x in (bad or []))}')
-    ctx.floor('network primitives reachable from resolve()', total, 10)
-    ctx.floor('functions on those chains that call check_can_download()', len(net.guard_sites), 3)
+    kinds = {site[1].split(':')[0].split()[0] for site in net.sites('self.resolve', False)}
+    ctx.floor('kinds of network primitive reachable from resolve() (wrapdb, urlopen, sftp, git, hg, svn)', len(kinds), 6)
+    ctx.floor('functions on those chains that call check_can_download()', len(net.guard_sites) + net.inline_guards, 1)
     ctx.note(f'guards in: {sorted(net.guard_sites)}')
     # the guard itself
     qn = f'{R}.{GUARD}'
+    if not mod.has_func(qn):
+        ctx.note('check_can_download() is not a method any more; inline tests of wrap_mode were used as the guard')
+        return
     g = _fn(mod, qn)
-    ND = (Atom('is', ('self.wrap_mode', 'WrapMode.nodownload')), tables.canon(_parse('self.wrap_mode == WrapMode.nodownload'), True)[0])
+    ND = _nodownload_atoms()
     n_pass = 0
     for sp in sympaths(g):
         conds = {a: v for a, v, _ in sp.conds()}
@@ -1210,15 +1362,35 @@ def r3(ctx: RuleCtx) -> None:
 STEPS = ('apply_patch', 'apply_diff_files')
 
 
-def _cleanup_problems(cfg: CFG, n: Node) -> T.List[str]:
-    """why a failure of the statement at `n` does not end in `remove self.dirname; re-raise` inside this function ([] = it does)"""
-    rm = cfg.nodes_with_call(lambda c: call_method(c) in ('windows_proof_rmtree', 'rmtree') and bool(c.args) and attr_chain(c.args[0]) == 'self.dirname')
+def _is_dirname(e: ast.AST, fn: ast.AST) -> bool:
+    """self.dirname, a local bound once to it, or str()/Path()/os.fspath() of either"""
+    if isinstance(e, ast.Call) and len(e.args) == 1 and not e.keywords and (call_name(e) or '').split('.')[-1] in ('str', 'Path', 'fspath', 'abspath'):
+        e = e.args[0]
+    if attr_chain(e) == 'self.dirname':
+        return True
+    if isinstance(e, ast.Name):
+        defs = _assigned(fn, e.id)
+        return len(defs) == 1 and defs[0] is not None and attr_chain(defs[0]) == 'self.dirname'
+    return False
+
+
+def _cleanup_problems(cfg: CFG, n: Node, fn: ast.AST) -> T.Tuple[T.List[str], T.List[str]]:
+    """(why a failure of the statement at `n` does not end in `remove self.dirname; re-raise` inside this function ([] = it does),
+    constructs around it that could do the clean-up in a way this rule does not read)"""
+    rm = cfg.nodes_with_call(lambda c: 'rmtree' in (call_method(c) or '') and bool(c.args) and _is_dirname(c.args[0], fn))
+    unread: T.List[str] = []
+    for w in ast.walk(fn):
+        if isinstance(w, (ast.With, ast.AsyncWith)) and any(x is n.ast or x is n.expr() for b in w.body for x in ast.walk(b)):
+            for it in w.items:
+                c = it.context_expr
+                if not (isinstance(c, ast.Call) and (call_name(c) or '').split('.')[0] in ('open', 'tempfile', 'contextlib', 'DirectoryLock')):
+                    unread.append(f'with {short(c, 50)}')
 
     def broad(h: Node) -> bool:
         return h.ast.type is None or attr_chain(h.ast.type) in ('Exception', 'BaseException')  # type: ignore[union-attr]
     heads = [cfg.nodes[b] for b, lab in cfg.succ[n.id] if lab == 'exc' and cfg.nodes[b].kind == 'handler']
     if not any(broad(h) for h in heads):
-        return ['is not inside a try that catches Exception: a failing step leaves the freshly unpacked directory behind']
+        return ['is not inside a try that catches Exception: a failing step leaves the freshly unpacked directory behind'], unread
 
     def within_scope(a: Node, b: Node, lab: T.Any) -> bool:
         # an exception edge straight to the exit next to one into an `except Exception` models BaseException only (not decided)
@@ -1230,9 +1402,14 @@ def _cleanup_problems(cfg: CFG, n: Node) -> T.List[str]:
         esc = cfg.reachable([h], avoid=rm, edge_ok=within_scope)
         if cfg.exit_raise.id in esc or cfg.exit_return.id in esc:
             problems.append(f'{name} can be left without removing self.dirname')
+            for c in calls_in(h.ast, nested=True):     # a call in the handler that is neither the removal nor logging may be the clean-up
+                cn = call_name(c) or short(c.func, 30)
+                understood_rm = 'rmtree' in cn and c.args and (_is_dirname(c.args[0], fn) or attr_chain(c.args[0]) is not None and '.' in (attr_chain(c.args[0]) or ''))
+                if not (cn.startswith('mlog.') or cn in ('str', 'repr', 'print', 'format') or understood_rm):
+                    unread.append(f'{cn}(..) in the handler')
         elif cfg.exit_return.id in cfg.reachable([h]):
             problems.append(f'{name} swallows the failure instead of re-raising')
-    return problems
+    return problems, unread
 
 
 def r4(ctx: RuleCtx) -> None:
@@ -1240,13 +1417,16 @@ def r4(ctx: RuleCtx) -> None:
     qn = f'{R}._resolve'
     meths = mod.methods(R)
     cfgs: T.Dict[str, CFG] = {}
+    fns: T.Dict[str, T.Any] = {}
+    unsure: T.List[str] = []
     leaves: T.Dict[int, T.Tuple[str, ast.Call]] = {}
     Open = T.List[T.Tuple[T.List[str], ast.Call, str, T.List[str]]]      # call chain, step call, function of the step, why unprotected
 
     def unprotected(m: str, busy: T.FrozenSet[str]) -> Open:
         """patch/diff steps that a call of self.<m>() can run without a cleanup handler of <m> (or of a callee on the way) around them"""
         if m not in cfgs:
-            cfgs[m] = CFG(meths[m])
+            fns[m] = _fn(mod, f'{R}.{m}')           # (extracted helpers expanded, loops over constant tuples of methods unrolled)
+            cfgs[m] = CFG(fns[m])
         cfg = cfgs[m]
         out: Open = []
         for n in cfg.nodes:
@@ -1264,11 +1444,14 @@ def r4(ctx: RuleCtx) -> None:
                     continue
                 if not inner:
                     continue
-                problems = _cleanup_problems(cfg, n)
+                problems, unread = _cleanup_problems(cfg, n, fns[m])
                 if problems:
+                    unsure.extend(unread)
                     out.extend(([m] + ch, leaf, where, why or problems) for ch, leaf, where, why in inner)
         return out
     bad = {id(leaf): (chain, where, why) for chain, leaf, where, why in unprotected('_resolve', frozenset())}
+    if bad and unsure:
+        raise Undecided(f'{qn}: no clean-up recognised around a patch/diff step, but {sorted(set(unsure))} could be one')
     for lid, (where, c) in leaves.items():
         if lid in bad:
             chain, _, why = bad[lid]
@@ -1341,7 +1524,7 @@ def r4(ctx: RuleCtx) -> None:
         gates.add(a.args[0])
     if not tests:
         raise Undecided('_resolve: no test recognised as "the build file exists under self.dirname"')
-    ctx.floor('build-file tests in _resolve', len(tests), 2)
+    ctx.floor('build-file tests in _resolve', len(tests), 1)
     live = cfg.reachable([cfg.entry], edge_ok=lambda a, b, lab: not (a.id in tests and lab == tests[a.id]), include_start=True)
     n_ret = 0
     for n in cfg.nodes:
@@ -1352,7 +1535,7 @@ def r4(ctx: RuleCtx) -> None:
             ctx.require(n.id not in live, f'`{short(n.ast)}` only after {sorted(gates)} held', mod, qn, n.ast,
                         f'`{short(n.ast)}` can be reached on a path on which none of the build-file tests {sorted(gates)} was taken with the outcome "exists": '
                         'a directory without build file is accepted', n.ast)
-    ctx.floor('returns of _resolve', n_ret, 2)
+    ctx.floor('returns of _resolve', n_ret, 1)
     if ctx.thorough:
         ext = []
         for rel in ctx.repo.py_files('mesonbuild'):
@@ -1368,6 +1551,174 @@ def r4(ctx: RuleCtx) -> None:
         ctx.note(f'not armed: patch/diff re-applied to an existing checkout outside the cleanup try (meson subprojects update/packagefiles): {ext}')
 
 
+# ---------------------------------------------------------------------------------------------
+# R5  what is applied after (or rewritten during) the lookup is not part of the lookup key
+
+DETECT = 'mesonbuild/dependencies/detect.py'
+INTERP = 'mesonbuild/interpreter/interpreter.py'
+
+
+def _const_key(e: ast.AST, holder: T.Set[str]) -> T.Optional[str]:
+    """`d['k']` / `d.get('k'..)` with d one of the names in `holder` -> 'k'"""
+    if isinstance(e, ast.Subscript) and isinstance(e.value, ast.Name) and e.value.id in holder and isinstance(e.slice, ast.Constant) and isinstance(e.slice.value, str):
+        return e.slice.value
+    if isinstance(e, ast.Call) and isinstance(e.func, ast.Attribute) and e.func.attr == 'get' and isinstance(e.func.value, ast.Name) and e.func.value.id in holder \
+            and e.args and isinstance(e.args[0], ast.Constant) and isinstance(e.args[0].value, str):
+        return e.args[0].value
+    return None
+
+
+def r5(ctx: RuleCtx) -> None:
+    from ..consteval import fold_expr
+    dmod = ctx.repo.module(DETECT)
+    imod = ctx.repo.module(INTERP)
+    fmod = ctx.repo.module(DF)
+    # (1) keyword arguments that Interpreter.func_dependency reads again once lookup() has returned (post-processing of the result), and
+    #     keyword arguments that are rewritten in the dict the identifier is computed from
+    fd = imod.func('Interpreter.func_dependency')
+    cfg = CFG(fd)
+    fl = Flow(fd)
+    look = [n for n in cfg.nodes_with_call(lambda c: call_method(c) == 'lookup' and isinstance(c.func, ast.Attribute) and isinstance(c.func.value, ast.Name)
+                                           and any(call_method(d) == H for d in _assigned(fd, c.func.value.id) if d is not None))]
+    if len(look) != 1:
+        raise Undecided(f'func_dependency: {len(look)} calls of {H}.lookup found')
+    call = [c for c in walk_no_nested(look[0].expr()) if isinstance(c, ast.Call) and call_method(c) == 'lookup'][0]  # type: ignore[arg-type]
+    passed = call.args[0] if call.args else None
+    params = {a.arg for a in fd.args.args}
+    holder = {o.split(':', 1)[1] for o in (fl.origins(passed) if passed is not None else set()) if o.startswith('param:')} & params - {'self'}
+    if isinstance(passed, ast.Name):
+        holder_all = holder | {passed.id}
+    else:
+        holder_all = set(holder)
+    if not holder:
+        raise Undecided('func_dependency: the dict handed to lookup() does not come from a parameter')
+    after = cfg.reachable([look[0]])
+    why: T.Dict[str, str] = {}
+    for nid in after:
+        e = cfg.nodes[nid].expr()
+        if e is None:
+            continue
+        for x in walk_no_nested(e):
+            k = _const_key(x, holder_all)
+            if k and isinstance(getattr(x, 'ctx', ast.Load()), ast.Load):
+                why.setdefault(k, f'func_dependency reads it after lookup() returned ({short(x)})')
+            if isinstance(x, ast.Name) and isinstance(x.ctx, ast.Load):
+                for d in _assigned(fd, x.id):
+                    k2 = _const_key(d, holder_all) if d is not None else None
+                    if k2:
+                        why.setdefault(k2, f'func_dependency uses `{x.id}` (= {short(d)}) after lookup() returned')
+    for n in ast.walk(fd):
+        if isinstance(n, ast.Assign):
+            for t in n.targets:
+                k = _const_key(t, holder_all)
+                if k:
+                    why.setdefault(k, f'func_dependency rewrites it before the lookup ({short(n)})')
+    for name, m in fmod.methods(H).items():
+        mp = {a.arg for a in m.args.args}
+        keyed = {c.args[1].id for c in calls_in(m, nested=True) if call_method(c) == 'get_dep_identifier' and len(c.args) == 2 and isinstance(c.args[1], ast.Name) and c.args[1].id in mp}
+        for n in ast.walk(m):
+            if isinstance(n, ast.Assign):
+                for t in n.targets:
+                    k = _const_key(t, keyed)
+                    if k:
+                        why.setdefault(k, f'{H}.{name} rewrites it between candidates ({short(n)})')
+    ctx.floor('keyword arguments applied after / rewritten during the lookup', len(why), 1)
+    # (2) get_dep_identifier: for such a keyword no path of the loop over the keyword arguments may put it into the identifier
+    gi = dmod.func('get_dep_identifier')
+    loops = [n for n in ast.walk(gi) if isinstance(n, ast.For) and isinstance(n.iter, ast.Call) and call_method(n.iter) == 'items'
+             and isinstance(n.target, ast.Tuple) and len(n.target.elts) == 2 and isinstance(n.target.elts[0], ast.Name)]
+    if len(loops) != 1:
+        raise Undecided(f'get_dep_identifier: {len(loops)} loops over the items of the keyword arguments')
+    keyvar = loops[0].target.elts[0].id  # type: ignore[attr-defined]
+    rets = [n for n in walk_no_nested(gi) if isinstance(n, ast.Return) and isinstance(n.value, ast.Name)]
+    if len(rets) != 1:
+        raise Undecided('get_dep_identifier: result is not a single named value')
+    ident = rets[0].value.id  # type: ignore[union-attr]
+    paths = sympaths(gi, loops[0].body)
+
+    def verdict(atom: Atom, val: bool, k: str) -> T.Optional[bool]:
+        """is the condition `atom == val` consistent with key == k?  None: the atom does not speak about the key"""
+        if atom.kind == 'in' and atom.args[0] == keyvar:
+            c = fold_expr(ctx.repo, dmod, _parse(atom.args[1]))
+            if not isinstance(c, (set, frozenset, tuple, list, dict)):
+                raise Undecided(f'get_dep_identifier: cannot fold {atom.args[1]}')
+            return (k in c) == val
+        if atom.kind == 'cmp' and atom.args[0] == 'eq' and keyvar in atom.args[1:]:
+            other = [x for x in atom.args[1:] if x != keyvar]
+            c = fold_expr(ctx.repo, dmod, _parse(other[0])) if other else None
+            if not isinstance(c, str):
+                raise Undecided(f'get_dep_identifier: cannot fold {other}')
+            return (k == c) == val
+        if keyvar in {n.id for n in ast.walk(_parse(atom.args[0] if atom.kind != 'cmp' else atom.args[1])) if isinstance(n, ast.Name)}:
+            raise Undecided(f'get_dep_identifier: test on the key not understood: {atom!r}')
+        return None
+    for k, reason in sorted(why.items()):
+        bad = None
+        for sp in paths:
+            conds = [(a, v) for a, v, _ in sp.conds()]
+            if any(verdict(a, v, k) is False for a, v in conds):
+                continue
+            writes = [st for st, _ in sp.stmts() if isinstance(st, (ast.Assign, ast.AugAssign)) and
+                      any(attr_chain(t) == ident for t in (st.targets if isinstance(st, ast.Assign) else [st.target]))]
+            if writes:
+                bad = (sp, writes[0])
+                break
+        ctx.require(bad is None, f'{k!r} is left out of the dependency identifier ({reason})', dmod, 'get_dep_identifier', f'identifier includes {k!r}',
+                    f'the identifier under which found and overridden dependencies are stored includes the keyword {k!r} '
+                    f'(path `{short(bad[0].path.describe(), 160) if bad else ""}`), but {reason}: a result stored for one value of it is not found again with another',
+                    bad[1] if bad else None)
+
+
+# A rule reads one or two modules; when their content is the one an earlier run in this process already judged (the
+# refactoring sweep analyses 300 overlays, most of which do not touch them) the recorded obligations are replayed.
+_DONE: T.Dict[T.Any, T.Tuple[T.List[T.Tuple[str, tuple, dict]], T.Optional[BaseException]]] = {}
+
+
+class _Recorder:
+    def __init__(self, ctx: RuleCtx, log: T.List[T.Tuple[str, tuple, dict]]):
+        self._ctx, self._log = ctx, log
+
+    def __getattr__(self, name: str) -> T.Any:
+        target = getattr(self._ctx, name)
+        if name in ('ok', 'violation', 'require', 'floor', 'note'):
+            def call(*a: T.Any, **k: T.Any) -> T.Any:
+                self._log.append((name, a, k))
+                return target(*a, **k)
+            return call
+        return target
+
+
+def _replayable(fn: T.Callable[[RuleCtx], None], *files: str) -> T.Callable[[RuleCtx], None]:
+    def run(ctx: RuleCtx) -> None:
+        if ctx.thorough:
+            return fn(ctx)
+        key = (fn.__name__, tuple(ctx.repo.module(f).digest for f in files))
+        if key not in _DONE:
+            if len(_DONE) > 400:
+                _DONE.clear()
+            log: T.List[T.Tuple[str, tuple, dict]] = []
+            err: T.Optional[BaseException] = None
+            try:
+                fn(T.cast(RuleCtx, _Recorder(ctx, log)))
+            except Exception as e:
+                err = e
+            _DONE[key] = (log, err)
+            if err is not None:
+                raise err
+            return
+        log, err = _DONE[key]
+        for name, a, k in log:
+            getattr(ctx, name)(*a, **k)
+        if err is not None:
+            raise err
+    run.__name__ = fn.__name__
+    return run
+
+
+r1a, r1b, r1c, r1d, r1e, r1f, r1g = (_replayable(f, DF) for f in (r1a, r1b, r1c, r1d, r1e, r1f, r1g))
+r2a, r2b, r2c, r2d, r3, r4 = (_replayable(f, WRAP) for f in (r2a, r2b, r2c, r2d, r3, r4))
+r5 = _replayable(r5, DETECT, INTERP, DF)
+
 RULES = [
     Rule('C10.R1a', 'candidate order and guards (_get_candidates)', r1a),
     Rule('C10.R1b', 'candidate functions: configure unless nofallback; system/existing return only what was found', r1b),
@@ -1381,5 +1732,6 @@ RULES = [
     Rule('C10.R2c', '_download publishes only a digest-verified temporary; get_data hashes what it writes', r2c),
     Rule('C10.R2d', 'unpack_archive only on paths from _get_file_internal', r2d),
     Rule('C10.R3', 'check_can_download() precedes every network primitive reachable from resolve()', r3),
+    Rule('C10.R5', 'keyword arguments applied after / rewritten during the lookup are not part of the dependency identifier', r5),
     Rule('C10.R4', 'patch/diff failure removes the directory and re-raises; returns gated by has_buildfile()', r4),
 ]
